@@ -52,7 +52,7 @@ def cell_string(s, **kw):
 def cell_simple(b, **kw):
     cb = Cell(b)
     ok = cb.value is b and cb.type == "boolean" and _fresh(cb).value is b
-    for n in (0, -3, 12, 10 ** 20):
+    for n in (0, -3, 12, 10 ** 20, 10 ** 30, -(2 ** 100)):
         cn = Cell(n)
         ok = ok and cn.value == n and isinstance(cn.value, int) and not isinstance(cn.value, bool)
     ok = ok and Cell(Decimal("1.50")).value == Decimal("1.50") and Cell(2.5).value == Decimal("2.5") and Cell(None).value is None
@@ -110,7 +110,7 @@ def carrier_string(s, carrier="varset", **kw):
 
 
 def carrier_simple(b, carrier="varset", **kw):
-    for v in (b, 0, -3, 12, 10 ** 20, Decimal("1.50"), None):
+    for v in (b, 0, -3, 12, 10 ** 20, 10 ** 30, -(2 ** 100), Decimal("1.50"), Decimal("1E+40"), None):
         bad, msg = _carrier(v, carrier, "txt")
         if bad:
             return bad, msg
